@@ -788,6 +788,33 @@ end
 		}
 		b.WriteString("wg.wait\nprintln \"all\"\n")
 		p.Expect = append(p.Expect, "all")
+	case k < 10:
+		// a channel is closed by a peer while (or before) the main thread sits in a select
+		// with a send case on it: a closed channel rejects the push with an error, the
+		// select must not crash and must not report the value as sent
+		p.Scenario = "selectclose"
+		spin := Pick(r, []int{0, 1, 5, 40, 300})
+		capc := r.Intn(2)
+		b.WriteString("def closer(ch: Channel[Int], n: Int)\n  i := 0\n  while i < n\n    i = i + 1\n  end\n  ch.close\nend\n\n")
+		fmt.Fprintf(&b, "chs := Channel::[Int](%d)\nchr := Channel::[Int](0)\n", capc)
+		if capc == 1 {
+			b.WriteString("chs << 1\n") // full: the send case cannot proceed until the close
+		}
+		closedBefore := r.Chance(0.3)
+		if closedBefore {
+			b.WriteString("chs.close\n")
+		} else {
+			fmt.Fprintf(&b, "go closer(chs, %d)\n", spin)
+		}
+		// (no select-with-else inside a loop: every evaluation of `select ... else` leaks two
+		// stack slots, a sequential defect listed in DESIGN.md 7.3; an else branch is only used
+		// when the channel is already closed, where the send case is ready and must be taken)
+		b.WriteString("do\n  select\n  case chs << 7\n    println \"sent\"\n  case v := <<chr\n    println \"recv\"\n")
+		if closedBefore && r.Chance(0.5) {
+			b.WriteString("  else\n    println \"else\"\n")
+		}
+		b.WriteString("  end\n  println \"selected\"\ncatch Channel::ClosedError() as e\n  println \"closed-error\"\nend\nprintln \"end\"\n")
+		p.Expect = []string{"closed-error", "end"}
 	default:
 		p.Scenario = "misuse"
 		steps := []string{"munlock", "rwunlock", "rwrunlock", "dclose", "pushclosed", "popclosed", "crossunlock", "lockunlock", "rlock2", "closedsingleton", "popdrain"}
